@@ -36,6 +36,55 @@ def replay_grpc(ctx, profile, nhist, corpus=None):
     return (ops, impl, spec, res), ""
 
 
+def sizes_corpus(ctx):
+    """histories whose MESSAGES are large although every content is small: many keys (one GetKeys response
+    carries all of them), long keys (echoed in the GetFile header, sent in the SetFile header), inside and
+    outside transactions of every level"""
+    def hx(s):
+        return s.encode().hex()
+    hs = []
+    nkeys = 1500 if ctx.thorough else 400
+    h = []
+    for i in range(nkeys):
+        h.append("s 0 %s %d %s" % (hx("key-%05d-%s" % (i, "x" * (i % 23))), 4000 + i % 7, ["set", "reader", "create"][i % 3]))
+        if i in (3, 40, 110, 250):
+            h.append("k 0")
+    h += ["k 0", "b 1 RU", "k 1", "b 2 RC", "k 2", "b 3 RR", "k 3", "b 4 SER", "d 4 " + hx("key-00007-xxxxxxx"), "k 4", "c 4", "k 0",
+          "g 0 " + hx("key-00399-" + "x" * (399 % 23)), "r 1", "c 2", "c 3", "k 0"]
+    hs.append(h)
+    h = []
+    for n in ([100, 1000, 4000, 4090, 4100, 5000, 20000] + ([66000, 300000] if ctx.thorough else [])):
+        k = hx(("L%d-" % n) + "y" * n)
+        h += ["s 0 %s 4001 set" % k, "g 0 %s" % k, "b 1 RR", "s 1 %s 4002 reader" % k, "g 1 %s" % k, "k 1", "c 1", "g 0 %s" % k, "k 0", "d 0 %s" % k, "g 0 %s" % k]
+    hs.append(h)
+    cp = os.path.join(ctx.rd, "c11sizes.corpus")
+    with open(cp, "w") as f:
+        for h in hs:
+            f.write("\n".join(h) + "\n\n")
+    return cp
+
+
+def limit_corpora(ctx):
+    """the open known findings C11-getkeys-over-4MiB / C11-key-over-4MiB: one protobuf message carries all
+    keys (GetKeysResponse) or a whole key (SetFile / GetFile header); gRPC's default limit is 4 MiB per
+    message.  Exercised on every run so that the findings are re-confirmed, not remembered."""
+    def hx(s):
+        return s.encode().hex()
+    a = ["s 0 %s 4001 set" % hx(("K%03d-" % i) + "z" * 65000) for i in range(70)] + ["k 0"]
+    big = hx("B-" + "q" * (5 * 1024 * 1024))
+    b = ["s 0 %s 4003 set" % big]
+    out = []
+    for name, h in (("c11limitkeys", a), ("c11limitkey", b)):
+        cp = os.path.join(ctx.rd, name + ".corpus")
+        with open(cp, "w") as f:
+            f.write("\n".join(h) + "\n")
+        out.append((name, -1, -1, cp))
+    return out
+
+
+KNOWN_LIMIT = {"c11limitkeys": ("C11-getkeys-over-4MiB", "k"), "c11limitkey": ("C11-key-over-4MiB", "s")}
+
+
 def correspond(ctx):
     violations = []
     # (a) error mapping
@@ -45,7 +94,8 @@ def correspond(ctx):
     total = stats.get("lines", 0)
     hist = 0
     # (b) histories through the gRPC client
-    profiles = [("c01", 10, 60, None), ("c02", 8, 60, None), ("c13", 8, 60, os.path.join(C.VERIF, "corpus", "seq_c13.txt"))]
+    profiles = [("c01", 10, 60, None), ("c02", 8, 60, None), ("c13", 8, 60, os.path.join(C.VERIF, "corpus", "seq_c13.txt")),
+                ("c11sizes", -1, -1, sizes_corpus(ctx))] + limit_corpora(ctx)
     for profile, q, t, corpus in profiles:
         r, err = replay_grpc(ctx, profile, t if ctx.thorough else q, corpus)
         if r is None:
@@ -61,7 +111,13 @@ def correspond(ctx):
                 st = starts[-1] if starts else 0
                 payload = {"property": "C11", "kind": "grpc-history", "profile": profile, "failed_op": ops[i], "grpc": impl[i], "spec": spec[i],
                            "history": ops[st + 1:i + 1], "grpc_out": impl[st + 1:i + 1], "spec_out": spec[st + 1:i + 1], "seed": ctx.seed}
+                payload["history"] = [l[:200] + ("…(%d chars)" % len(l) if len(l) > 200 else "") for l in payload["history"]] if profile.startswith("c11limit") else payload["history"]
                 rp = C.write_replay("C11", "grpc-history-" + profile, payload)
+                if profile in KNOWN_LIMIT and ops[i].split()[1] == KNOWN_LIMIT[profile][1] and impl[i] == "e:NoFreeSpace" and not spec[i].startswith("e:"):
+                    what = {"c11limitkeys": "GetKeys through the gRPC client fails with ErrNoFreeSpace once the keys total more than 4 MiB (70 keys of 65 005 bytes; one GetKeysResponse message carries all keys, gRPC's default receive limit) while the inline client lists them",
+                            "c11limitkey": "Set through the gRPC client with a key of 5 MiB fails with ErrNoFreeSpace (the SetFile header message exceeds the server's default 4 MiB receive limit) while the inline client stores it"}[profile]
+                    violations.append(Violation(KNOWN_LIMIT[profile][0], what, rp))
+                    break
                 violations.append(Violation("c11-grpc-" + profile, "history of %d ops through the gRPC client: `%s` answered `%s`, the inline client / specification answers `%s`"
                                             % (i - st, ops[i][:60], impl[i][:60], spec[i][:60]), rp))
                 break
